@@ -103,7 +103,7 @@ func init() {
 			g := scale(&GenCfg{
 				Slabs: quickSlabs, MinOps: 2, MaxOps: 60,
 				W: map[string]int{
-					"mset": 30, "mget": 5, "mhas": 3, "mrem": 16, "mpop": 1, "msetN": 8, "mremN": 5,
+					"mset": 30, "mget": 5, "mhas": 3, "mrem": 16, "mpop": 1, "msetN": 8, "mremN": 8, "mgrow": 3, "mupdN": 3,
 					"mbadget": 2, "mbadrem": 2, "mbadhas": 1, "reopen": 2, "commit": 1, "evict": 1, "styp": 1,
 				},
 				Roots:   nil, // drawn per case (digester)
